@@ -1,5 +1,6 @@
 """Symbolic collections (maps of arbitrary size, ranges, lists) — filled in below."""
 from .values import *   # noqa: F401,F403
+from . import values as V
 
 
 def try_symbolic_sum(interp, gen, node):
@@ -136,3 +137,451 @@ def try_symbolic_anyall(interp, gen, node, is_any):   # noqa: F811  (replaces th
     if hasattr(it, 'sym_anyall'):
         return it.sym_anyall(interp, gen, g, is_any, node)
     return None
+
+
+# ===================================================================================== maps Substance -> amount of arbitrary size
+import ast as _ast
+from fractions import Fraction as _F
+from . import spec as _spec
+
+ArrR = _z3.ArraySort(Sub, RS)
+ArrB = _z3.ArraySort(Sub, BS)
+
+# canonical weighted sums over a contents map (DESIGN §4.3): WS_k(amt) = sum_x W_k(x) * amt[x]
+# (amt[x] = 0 outside the key set by the representation convention, so the sums depend on amt only)
+WS = {k: _z3.Function('WS_' + k, ArrR, RS) for k in ('vol', 'mass', 'mol', 'act')}
+ANYLIQ = _z3.Function('any_liquid', ArrB, BS)
+_adhoc_ws = {}
+_anyfuns = {}
+
+
+def storage_si(cfg, which):
+    u = cfg.get('volume_storage_unit') if which == 'L' else cfg.get('moles_storage_unit')
+    return _spec.SI[_spec.split_unit(u)[0]]
+
+
+def weight(k, x, ms):
+    """W_k(x): contribution of one *stored unit* of substance x (ms = SI factor of the moles storage unit).
+    vol in litres, mass in grams, mol in moles (non-enzymes only), act in U (enzymes only)."""
+    S = _spec.SubSpec(kind(x), mw(x), dens(x), sa(x))
+    enz = kind(x) == 3
+    msz = _spec.num(ms)
+    if k == 'vol':
+        return _z3.If(enz, _spec.factor(_spec.SubSpec(3, mw(x), dens(x), sa(x)), 'U', 'L'),
+                      msz * _spec.factor(_spec.SubSpec(1, mw(x), dens(x), sa(x)), 'mol', 'L'))
+    if k == 'mass':
+        return _z3.If(enz, 1 / sa(x), msz * mw(x))
+    if k == 'mol':
+        return _z3.If(enz, _z3.RealVal(0), msz)
+    if k == 'act':
+        return _z3.If(enz, _z3.RealVal(1), _z3.RealVal(0))
+    raise KeyError(k)
+
+
+def sub_wf_term(x):
+    return _z3.And(kind(x) >= 1, kind(x) <= 3, mw(x) > 0, dens(x) > 0, sa(x) > 0)
+
+
+class SymMap:
+    """dict[Substance, float] with an arbitrary (unbounded) key set: arrays amt, mem."""
+    py_type = 'dict'
+    py_iterable = True
+
+    def __init__(self, amt=None, mem=None, fresh_=False, tag=None):
+        tag = tag or f"m{next(V._ctr)}"
+        self.amt = amt if amt is not None else _z3.Const(f'amt_{tag}', ArrR)
+        self.mem = mem if mem is not None else _z3.Const(f'mem_{tag}', ArrB)
+        self.fresh = fresh_
+        self.tag = tag
+        self.owner = None
+
+    def __repr__(self):
+        return f"SymMap({self.tag})"
+
+    # representation convention + non-negativity for an input map
+    def wf(self):
+        x = _z3.Const('x!wf', Sub)
+        return _z3.And(_z3.ForAll([x], _z3.Implies(_z3.Not(self.mem[x]), self.amt[x] == 0)),
+                       _z3.ForAll([x], self.amt[x] >= 0))
+
+    def _term(self, interp, k):
+        if not _B.is_substance(k):
+            return None
+        return _B.sub_term(interp, k)
+
+    def sym_getitem(self, interp, k, node=None):
+        t = self._term(interp, k)
+        if t is None or not interp.decide(self.mem[t], f"key present@{getattr(node, 'lineno', None)}"):
+            raise Raised('KeyError', getattr(node, 'lineno', None), repr(k), implicit=True)
+        return self.amt[t]
+
+    def sym_setitem(self, interp, k, value, node=None):
+        t = self._term(interp, k)
+        if t is None:
+            raise Unsupported("non-substance key in a contents map")
+        if not self.fresh:
+            interp.writes.append((self.owner or self, 'contents[...]', getattr(node, 'lineno', None),
+                                  interp.call_stack[-1] if interp.call_stack else '?'))
+        if not is_num(value):
+            raise Unsupported("non-numeric amount stored in a contents map")
+        self.amt = _z3.Store(self.amt, t, real(value))
+        self.mem = _z3.Store(self.mem, t, True)
+
+    def sym_contains(self, interp, item, node=None):
+        t = self._term(interp, item)
+        if t is None:
+            return False
+        return self.mem[t]
+
+    def sym_getattr(self, interp, attr, node=None):
+        if attr == 'get':
+            return BoundV(self, BuiltinV('SymMap.get', SymMap._get))
+        if attr in ('items', 'keys', 'values'):
+            return BoundV(self, BuiltinV('SymMap.' + attr, lambda i, a, k, n, attr=attr: SymMapView(a[0], attr)))
+        if attr == 'copy':
+            return BoundV(self, BuiltinV('SymMap.copy', lambda i, a, k, n: SymMap(a[0].amt, a[0].mem, True)))
+        if hasattr(dict, attr):
+            raise Unsupported(f"dict.{attr} on a symbolic contents map")
+        raise Raised('AttributeError', getattr(node, 'lineno', None), attr, implicit=True)
+
+    @staticmethod
+    def _get(interp, args, kwargs, node):
+        self, k = args[0], args[1]
+        d = args[2] if len(args) > 2 else None
+        t = self._term(interp, k)
+        if t is None:
+            return d
+        if d is None:
+            if interp.decide(self.mem[t], "key present (get)"):
+                return self.amt[t]
+            return None
+        return _z3.If(self.mem[t], self.amt[t], real(d))
+
+    def sym_deepcopy(self, interp, memo):
+        return SymMap(self.amt, self.mem, True, self.tag + "'")
+
+    def sym_copy(self, interp):
+        return SymMap(self.amt, self.mem, True, self.tag + "'")
+
+    def sym_equals(self, interp, other):
+        if isinstance(other, SymMap):
+            return _z3.And(self.amt == other.amt, self.mem == other.mem)
+        if isinstance(other, dict):
+            if not other:
+                x = _z3.Const('x!eq', Sub)
+                return _z3.ForAll([x], _z3.Not(self.mem[x]))
+            raise Unsupported("symbolic map compared with a concrete dict")
+        return False
+
+    def sym_iterate(self, interp, node=None):
+        raise Unsupported("iteration over a contents map of arbitrary size outside a loop/sum")
+
+    def sym_loop(self, interp, st, env):
+        return SymMapView(self, 'keys').sym_loop(interp, st, env)
+
+    def sym_truth(self, interp):
+        f = _anyfuns.setdefault('nonempty', _z3.Function('nonempty', ArrB, BS))
+        return f(self.mem)
+
+    def sym_toset(self, interp, node=None):
+        return SymSubSet(self.mem)
+
+    def enum(self, interp):
+        """(key, idx, n): an enumeration of the current key set in iteration order (quantified axioms, tag 'enum')."""
+        cache = interp.__dict__.setdefault('_enums', {})
+        kid = self.mem.get_id()
+        if kid not in cache:
+            i = next(V._ctr)
+            key = _z3.Function(f'key{i}', IS, Sub)
+            idx = _z3.Function(f'idx{i}', Sub, IS)
+            n = _z3.Int(f'n{i}')
+            x = _z3.Const('x!en', Sub)
+            j = _z3.Int('j!en')
+            old = interp.cur_tag
+            interp.cur_tag = 'enum'
+            interp.assume(n >= 0)
+            interp.assume(_z3.ForAll([x], _z3.Implies(self.mem[x], _z3.And(idx(x) >= 0, idx(x) < n, key(idx(x)) == x))))
+            interp.assume(_z3.ForAll([j], _z3.Implies(_z3.And(j >= 0, j < n), _z3.And(self.mem[key(j)], idx(key(j)) == j))))
+            interp.cur_tag = old
+            cache[kid] = (key, idx, n)
+            interp.__dict__.setdefault('_enum_keep', []).append(self.mem)
+        return cache[kid]
+
+
+class SymMapView:
+    """contents.items() / .keys() / .values() of a SymMap."""
+    py_iterable = True
+
+    def __init__(self, m, kind_):
+        self.m = m
+        self.kind = kind_
+
+    def sym_iterate(self, interp, node=None):
+        raise Unsupported("iteration over a contents map of arbitrary size outside a loop/sum")
+
+    def bind_generic(self, interp, target, env, x, a):
+        """Bind the loop/comprehension target to the generic element (x, a)."""
+        if self.kind == 'items':
+            interp.assign(target, (SubV(x), a), env)
+        elif self.kind == 'keys':
+            interp.assign(target, SubV(x), env)
+        else:
+            interp.assign(target, a, env)
+
+    def sym_loop(self, interp, st, env):
+        from . import loops
+        return loops.loop_over_map(interp, st, env, self)
+
+    def sym_toset(self, interp, node=None):
+        if self.kind == 'keys':
+            return SymSubSet(self.m.mem)
+        raise Unsupported("set() of map values")
+
+    def sym_sum(self, interp, start, node=None):
+        if self.kind != 'values':
+            raise Unsupported("sum over keys")
+        x = fresh('x', Sub)
+        a = _z3.Real('a!gen')
+        r = recognise_sum(interp, a, x, a, self.m)
+        return interp.binop(_ast.Add(), start, r, node)
+
+
+class SymSubSet:
+    """A set of substances of arbitrary size (key set of a contents map)."""
+    py_iterable = True
+
+    def __init__(self, mem):
+        self.mem = mem
+
+    def sym_contains(self, interp, item, node=None):
+        if not _B.is_substance(item):
+            return False
+        return self.mem[_B.sub_term(interp, item)]
+
+    def sym_difference(self, interp, others, node=None):
+        mem = self.mem
+        x = _z3.Const('x!sd', Sub)
+        for o in others:
+            if isinstance(o, SymSubSet):
+                mem = _z3.Lambda([x], _z3.And(mem[x], _z3.Not(o.mem[x])))
+            else:
+                raise Unsupported("set difference with a non-symbolic set")
+        return SymSubSet(mem)
+
+    def sym_union(self, interp, others, node=None):
+        mem = self.mem
+        x = _z3.Const('x!su', Sub)
+        for o in others:
+            if isinstance(o, SymSubSet):
+                mem = _z3.Lambda([x], _z3.Or(mem[x], o.mem[x]))
+            else:
+                raise Unsupported("set union with a non-symbolic set")
+        return SymSubSet(mem)
+
+    def sym_add(self, interp, item, node=None):
+        self.mem = _z3.Store(self.mem, _B.sub_term(interp, item), True)
+
+    def sym_equals(self, interp, other):
+        if isinstance(other, SymSubSet):
+            return self.mem == other.mem
+        return False
+
+    def sym_iterate(self, interp, node=None):
+        raise Unsupported("iteration over a set of substances of arbitrary size")
+
+    def sym_deepcopy(self, interp, memo):
+        return SymSubSet(self.mem)
+
+
+# ------------------------------------------------------------------------------------- recognising weighted sums
+SAMPLES = [
+    # (kind, mw, dens, sa)
+    (1, _F(7), _F(3), _F(5)), (2, _F(11), _F(13, 10), _F(17)), (3, _F(19), _F(23, 10), _F(29)),
+    (2, _F(2), _F(31, 10), _F(37)),
+]
+
+
+def _eval_at(term, x, a, sample, aval):
+    k, m, d, s = sample
+    subs = [(kind(x), _z3.IntVal(k)), (mw(x), _spec.num(m)), (dens(x), _spec.num(d)), (sa(x), _spec.num(s)),
+            (a, _spec.num(aval))]
+    v = _z3.simplify(_z3.substitute(term, *subs))
+    from .solve import val_to_fraction
+    return val_to_fraction(v)
+
+
+def recognise_sum(interp, term, x, a, m):
+    """term(x, a) is the contribution of key x with amount a.  Returns c * WS_k(m.amt) if term == c * W_k(x) * a for
+    all substances x (checked by the solver), else an ad-hoc uninterpreted sum."""
+    term = real(term)
+    ms = storage_si(interp.cfg, 'mol')
+    ts = _z3.simplify(term)
+    # identically zero?
+    wfx = sub_wf_term(x)
+    from . import solve
+    for k in ('vol', 'mass', 'mol', 'act'):
+        W = weight(k, x, ms)
+        c = None
+        for smp in SAMPLES:
+            wv = _eval_at(W, x, a, smp, 1)
+            tv = _eval_at(term, x, a, smp, 1)
+            if wv is None or tv is None:
+                c = None
+                break
+            if wv != 0:
+                c = tv / wv
+                break
+        if c is None:
+            continue
+        st, _, _, _ = solve.check_sat([wfx, term != _spec.num(c) * W * a], 5000, False, False)
+        if st == 'unsat':
+            interp.notes.append(f"sum recognised: {c} * WS_{k}")
+            if c == 0:
+                return _z3.RealVal(0)
+            return _spec.num(c) * WS[k](m.amt)
+    key = ts.sexpr()
+    if key not in _adhoc_ws:
+        _adhoc_ws[key] = _z3.Function(f'WSadhoc{len(_adhoc_ws)}', ArrR, ArrB, RS)
+    interp.notes.append(f"sum NOT recognised as a canonical weighted sum: {key[:200]}")
+    return _adhoc_ws[key](m.amt, m.mem)
+
+
+def try_symbolic_sum(interp, gen, node):   # noqa: F811
+    """sum(<elt> for <target> in <symbolic map view> [if <cond>])"""
+    from .interp import Env, MergeAbort
+    it, g = _gen_over(interp, gen)
+    if it is None:
+        return None
+    if isinstance(it, SymMap):
+        it = SymMapView(it, 'keys')
+    if not isinstance(it, SymMapView):
+        if hasattr(it, 'sym_gensum'):
+            return it.sym_gensum(interp, gen, g, node)
+        return None
+    x = fresh('x', Sub)
+    a = fresh('a', RS)
+    m = it.m
+    sc = Env(gen.env)
+    interp.solver.push()
+    nh = len(interp.hyps)
+    interp.pure += 1
+    try:
+        interp.assume(m.mem[x])
+        interp.assume(sub_wf_term(x))
+        interp.assume(a == m.amt[x])
+        it.bind_generic(interp, g.target, sc, x, a)
+        term = interp.ev(gen.node.elt, sc)
+        if not is_num(term):
+            raise MergeAbort("non-numeric summand")
+        term = real(term)
+        for c in g.ifs:
+            cv = interp.ev(c, sc)
+            if isinstance(cv, bool):
+                if not cv:
+                    term = _z3.RealVal(0)
+            elif is_symbool(cv):
+                term = _z3.If(cv, term, _z3.RealVal(0))
+            else:
+                raise MergeAbort("non-boolean filter")
+    except MergeAbort as e:
+        raise Unsupported(f"sum over a contents map: {e}")
+    except Raised as e:
+        raise Unsupported(f"sum over a contents map: summand raises {e.cls} (line {e.lineno})")
+    finally:
+        interp.pure -= 1
+        del interp.hyps[nh:]
+        del interp.hyp_tags[nh:]
+        interp.solver.pop()
+    # the summand may mention m.amt[x] (e.g. self.contents[substance]) instead of a
+    term = _z3.substitute(term, (m.amt[x], a))
+    return recognise_sum(interp, term, x, a, m)
+
+
+_old_anyall = try_symbolic_anyall
+
+
+def try_symbolic_anyall(interp, gen, node, is_any):   # noqa: F811
+    from .interp import Env, MergeAbort
+    it, g = _gen_over(interp, gen)
+    if it is None:
+        return None
+    if isinstance(it, SymMap):
+        it = SymMapView(it, 'keys')
+    if isinstance(it, SymMapView):
+        x = fresh('x', Sub)
+        a = fresh('a', RS)
+        sc = Env(gen.env)
+        interp.solver.push()
+        nh = len(interp.hyps)
+        interp.pure += 1
+        try:
+            interp.assume(it.m.mem[x])
+            interp.assume(sub_wf_term(x))
+            it.bind_generic(interp, g.target, sc, x, a)
+            if g.ifs:
+                raise MergeAbort("filtered any/all")
+            p = interp.ev(gen.node.elt, sc)
+        except MergeAbort as e:
+            raise Unsupported(f"any/all over a contents map: {e}")
+        except Raised as e:
+            raise Unsupported(f"any/all over a contents map: predicate raises {e.cls}")
+        finally:
+            interp.pure -= 1
+            del interp.hyps[nh:]
+            del interp.hyp_tags[nh:]
+            interp.solver.pop()
+        if isinstance(p, bool):
+            ne = it.m.sym_truth(interp)
+            return (ne if p else False) if is_any else (True if p else _z3.Not(ne))
+        key = ('any' if is_any else 'all') + ':' + _z3.simplify(p).sexpr().replace(str(x), 'X')
+        f = _anyfuns.setdefault(key, _z3.Function(f'quant{len(_anyfuns)}', ArrB, BS))
+        return f(it.m.mem)
+    return _old_anyall(interp, gen, node, is_any)
+
+
+def try_symbolic_dictcomp(interp, e, env):   # noqa: F811
+    """{k: v for k, v in m.items() if cond(k)}: a pointwise filter of a symbolic map."""
+    from .interp import Env, MergeAbort
+    if len(e.generators) != 1:
+        return None
+    g = e.generators[0]
+    it = interp.ev(g.iter, env)
+    if not isinstance(it, SymMapView) or it.kind != 'items':
+        if isinstance(it, (SymMap, SymMapView)):
+            raise Unsupported("dict comprehension over keys/values of a symbolic map")
+        return None
+    m = it.m
+    x = _z3.Const(f'x!dc{next(V._ctr)}', Sub)
+    a = m.amt[x]
+    sc = Env(env)
+    interp.solver.push()
+    nh = len(interp.hyps)
+    interp.pure += 1
+    try:
+        interp.assume(m.mem[x])
+        interp.assume(sub_wf_term(x))
+        it.bind_generic(interp, g.target, sc, x, a)
+        kv = interp.ev(e.key, sc)
+        vv = interp.ev(e.value, sc)
+        if not (isinstance(kv, SubV) and kv.term.eq(x)):
+            raise MergeAbort("key of the comprehension is not the iterated key")
+        if not is_num(vv):
+            raise MergeAbort("non-numeric value")
+        keep = True
+        for c in g.ifs:
+            cv = interp.ev(c, sc)
+            keep = cv if keep is True else _z3.And(boolz(keep), boolz(cv))
+    except MergeAbort as ex:
+        raise Unsupported(f"dict comprehension over a contents map: {ex}")
+    except Raised as ex:
+        raise Unsupported(f"dict comprehension over a contents map: raises {ex.cls}")
+    finally:
+        interp.pure -= 1
+        del interp.hyps[nh:]
+        del interp.hyp_tags[nh:]
+        interp.solver.pop()
+    keepz = boolz(keep)
+    mem2 = _z3.Lambda([x], _z3.And(m.mem[x], keepz))
+    amt2 = _z3.Lambda([x], _z3.If(_z3.And(m.mem[x], keepz), real(vv), _z3.RealVal(0)))
+    r = SymMap(amt2, mem2, True)
+    return r
